@@ -313,6 +313,9 @@ class R:
                         sg *= ps
                         continue
                 t = tt if t is None else t * tt
+            elif e > 0:
+                # an even power in the numerator is >= 0 but may vanish: keep a square (denominators are non-zero)
+                t = tt * tt if t is None else t * tt * tt
         if t is None:
             return z3.RealVal(sg)
         return z3.simplify(t if sg == 1 else z3.RealVal(sg) * t)
@@ -959,19 +962,33 @@ def _reduces_to_zero(t):
     return res
 
 
+_VARS_CACHE = {}
+
+
 def _vars(t, acc=None):
-    acc = set() if acc is None else acc
-    stack = [t]
-    seen = set()
-    while stack:
-        u = stack.pop()
-        i = u.get_id()
-        if i in seen:
-            continue
-        seen.add(i)
-        if z3.is_const(u) and u.decl().kind() == z3.Z3_OP_UNINTERPRETED:
-            acc.add(str(u))
-        stack.extend(u.children())
+    """names of the uninterpreted constants of t (memoised per top-level term; the term is kept alive with its entry
+    because z3 reuses AST ids after garbage collection)"""
+    i0 = t.get_id()
+    hit = _VARS_CACHE.get(i0)
+    if hit is None or not hit[0].eq(t):
+        out = set()
+        stack = [t]
+        seen = set()
+        while stack:
+            u = stack.pop()
+            i = u.get_id()
+            if i in seen:
+                continue
+            seen.add(i)
+            if z3.is_const(u) and u.decl().kind() == z3.Z3_OP_UNINTERPRETED:
+                out.add(str(u))
+            stack.extend(u.children())
+        if len(_VARS_CACHE) > 200000:
+            _VARS_CACHE.clear()
+        hit = _VARS_CACHE[i0] = (t, frozenset(out))
+    if acc is None:
+        return set(hit[1])
+    acc |= hit[1]
     return acc
 
 
